@@ -429,7 +429,16 @@ def check_nematic(run, pkg):
                 alts = [want, ("bin", "*", C(2.0), want[2]), ("bin", "*", want[2], C(2)), ("bin", "*", C(2), want[2]),
                         ("bin", "*", ("call", ".max", (("call", "numpy.linalg.eigvalsh", (Qni,), ()),), ()), C(2.0)), ("bin", "*", ("call", ".max", (("call", "numpy.linalg.eigvals", (Qni,), ()),), ()), C(2.0))]
                 ok = tri(eqv(e.data["value"], *alts, same=True), True if ret == e.data["target"][1] else None)
-                run.ob("R-ALG", fq, f"{tag}:scalar", ok, "eigen variant: S_i = 2 x largest eigenvalue of Q_i", show(e.data["value"])[:80], witness=None if ok else "not twice the largest eigenvalue", loc=loc_of(it, e), sound=True)
+                wit_e = "not twice the largest eigenvalue"
+                if ok is None and nb:
+                    # per-particle store whose eigen-decomposition is fed from another tensor than the one kept as self.QIJ
+                    avg_ = lambda t_: any(y[0] == "call" and y[1] == "PyMatterSim.utils.coarse_graining.spatial_average" for y in walk(t_))      # noqa: E731
+                    fe = [x[2][0] for x in walk(e.data["value"]) if x[0] == "call" and x[1] in ("numpy.linalg.eig", "numpy.linalg.eigvalsh", "numpy.linalg.eigvals", "numpy.linalg.eigh") and x[2]]
+                    fe = [Q if f_ == ("attr", SELF, "QIJ") else f_ for f_ in fe]
+                    if fe and avg_(Q) and all(not avg_(f_) and not any(y == ("attr", SELF, "QIJ") for y in walk(f_)) for f_ in fe):
+                        ok = False
+                        wit_e = "with a neighbour file the eigenvalues are taken of the raw per-particle tensors, not of the neighbour-averaged ones kept as self.QIJ"
+                run.ob("R-ALG", fq, f"{tag}:scalar", ok, "eigen variant: S_i = 2 x largest eigenvalue of Q_i", show(e.data["value"])[:80], witness=None if ok else wit_e, loc=loc_of(it, e), sound=True)
             else:
                 okt = eqv(e.data["value"], ("call", "numpy.trace", (("call", "numpy.matmul", (Qni, Qni), ()),), ()), ("call", "numpy.trace", (("bin", "@", Qni, Qni),), ()))
                 T = sp.Symbol("T", positive=True)
